@@ -217,6 +217,11 @@ def extra_programs():
                           {"name": "STAGE2", "module": "main", "params": [["x", None]], "body": [{"k": "keep", "path": "/m/g", "fn": "G", "args": [{"param": "x"}]}]},
                           {"name": "root", "module": "main", "params": [], "body": [ca("UA", {"lit": "1"}), ca("STAGE2", {"local": 0}), ca("UA2", {"local": 1})]}],
                 "entries": {"eval_root": {"kind": "eval", "fn": "root"}}})
+    # v keeps /g/m, m keeps /g/u, and v also loads /g/u: both the solid chain and the dashed edge must be drawn
+    out.append({"id": "G/load_of_transitive_dependency", "key": "load_of_transitive_dependency", "modules": ["main"], "vars": [], "eps": [],
+                "funcs": [df("U", "/g/u", []), df("M", "/g/m", [c("U")]), df("V", "/g/v", [c("M"), {"k": "load", "path": "/g/u"}]),
+                          {"name": "root", "module": "main", "params": [], "body": [c("V")]}],
+                "entries": {"eval_root": {"kind": "eval", "fn": "root"}}})
     from . import c09
     for pl in c09.PLACEMENTS:
         for pr in ("datafn", "keepcall"):
